@@ -885,3 +885,46 @@ MUTANTS += [
 """, """                    let pending_response = &mut pending_responses[pending_scrape_id.0 as usize];
 """)]),
 ]
+
+# renames of parameters / captured locals must not change any verdict (names are pinned by position, tables/pinned_names.json)
+MUTANTS += [
+ dict(id="BENIGN-rename-param-src", props=["C06", "C11", "C03"], benign=True,
+      edits=[(MIO+"mod.rs", "    fn handle_request(&mut self, request: Request, src: CanonicalSocketAddr) -> Option<Response> {", "    fn handle_request(&mut self, request: Request, source: CanonicalSocketAddr) -> Option<Response> {"),
+             (MIO+"mod.rs", "                    connection_id: self.validator.create_connection_id(src),", "                    connection_id: self.validator.create_connection_id(source),"),
+             (MIO+"mod.rs", """                if self
+                    .validator
+                    .connection_id_valid(src, request.connection_id)
+                {
+                    if self""", """                if self
+                    .validator
+                    .connection_id_valid(source, request.connection_id)
+                {
+                    if self"""),
+             (MIO+"mod.rs", "                            &request,\n                            src,\n                            self.peer_valid_until,", "                            &request,\n                            source,\n                            self.peer_valid_until,"),
+             (MIO+"mod.rs", """                if self
+                    .validator
+                    .connection_id_valid(src, request.connection_id)
+                {
+                    return Some(Response::Scrape(
+                        self.shared_state.torrent_maps.scrape(request, src),""", """                if self
+                    .validator
+                    .connection_id_valid(source, request.connection_id)
+                {
+                    return Some(Response::Scrape(
+                        self.shared_state.torrent_maps.scrape(request, source),""")]),
+ dict(id="BENIGN-rename-captured-now", props=["C10", "C07", "C11"], benign=True,
+      edits=[(HST, """        access_list_cache: &mut AccessListCache,
+        now: SecondsSinceServerStart,
+    ) {
+        let mut total_num_peers = 0;
+
+        self.torrents.retain(|info_hash, torrent_data| {""", """        access_list_cache: &mut AccessListCache,
+        current_time: SecondsSinceServerStart,
+    ) {
+        let mut total_num_peers = 0;
+
+        self.torrents.retain(|info_hash, torrent_data| {"""),
+             (HST, "                TorrentData::Small(t) => t.clean_and_get_num_peers(now),\n                TorrentData::Large(t) => t.clean_and_get_num_peers(now),", "                TorrentData::Small(t) => t.clean_and_get_num_peers(current_time),\n                TorrentData::Large(t) => t.clean_and_get_num_peers(current_time),")]),
+ dict(id="BENIGN-extra-logging-and-temp", props=["C01", "C02", "C20", "C12"], benign=True,
+      edits=[(SWR, "        let status =\n            PeerStatus::from_event_and_bytes_left(request.event.into(), request.bytes_left);", "        let event = request.event.into();\n        let status = PeerStatus::from_event_and_bytes_left(event, request.bytes_left);\n        ::log::trace!(\"announce status: {:?}\", status);")]),
+]
